@@ -21,7 +21,7 @@ from ._pipes import PipeScenario, JoinScenario, flat, needs_clock, parse, parity
 MOD = __name__
 
 
-def make_rc(scen, eid):
+def make_rc(scen, eid, initial=0):
     from streamz import RefCounter
 
     class RC(RefCounter):
@@ -38,7 +38,7 @@ def make_rc(scen, eid):
 
     def cb():
         scen.log.append(("cb", eid, scen.loop.time()))
-    rc = RC(cb=cb, loop=scen.ioloop)
+    rc = RC(initial=initial, cb=cb, loop=scen.ioloop)
     scen.rcs[eid] = rc
     return rc
 
@@ -47,7 +47,20 @@ class RefMixin:
     """reference holder model + C04/C05 oracles over self.log"""
 
     def md(self, x, i):
-        return [{"ref": make_rc(self, x), "id": x}]
+        opts = self.params.get("opts", ())
+        rc = make_rc(self, x, initial=1 if "init1" in opts else 0)
+        if "mix1" in opts:        # a second dictionary without a counter, after / before the one with it
+            return [{"ref": rc, "id": x}, {"tag": x}]
+        if "mix2" in opts:
+            return [{"tag": x}, {"ref": rc, "id": x}]
+        return [{"ref": rc, "id": x}]
+
+    def emitter_holds(self, log):
+        """init1: the caller created the counter with its own hold (initial=1) and lets go explicitly"""
+        if "init1" not in self.params.get("opts", ()):
+            return set()
+        gone = set(e[1] for e in log if e[0] == "letgo")
+        return set(e[3] for e in log if e[0] == "emit") - gone
 
     def node_name(self):
         return self.params["site"]
@@ -75,25 +88,32 @@ class RefMixin:
                 collected.append(e[3])
                 if e[1] in by_src:
                     by_src[e[1]].append(e[3])
+            elif k in ("in", "out") and e[1] == "S2":
+                # a second asynchronous consumer behind N: only its unfinished awaitables matter
+                if k == "in":
+                    open_batches.append(("S2", e[3]))
+                elif ("S2", e[3]) in open_batches:
+                    open_batches.remove(("S2", e[3]))
             elif k in ("in", "out") and e[1] != "S":
                 continue        # a side branch (fan-out scenarios): not the consumer behind N
             elif k == "in":
                 for x in flat(e[3]):
                     delivered.add(x)
-                open_batches.append(e[3])
+                open_batches.append(("S", e[3]))
                 since_delivery = []
                 ntup += 1
             elif k == "out":
-                if e[3] in open_batches:
-                    open_batches.remove(e[3])
+                if ("S", e[3]) in open_batches:
+                    open_batches.remove(("S", e[3]))
             elif k == "gate-failed":
                 for x in flat(e[3]):
                     failed.add(x)
-                if e[3] in open_batches:
-                    open_batches.remove(e[3])
+                lab = e[1].split(":")[0]
+                if (lab, e[3]) in open_batches:
+                    open_batches.remove((lab, e[3]))
             elif k == "flush":
                 collected = []
-        pending = set(x for b in open_batches for x in flat(b))
+        pending = set(x for _, b in open_batches for x in flat(b))
         held = {}
         if name in ("direct", "map"):
             pass
@@ -163,6 +183,8 @@ class RefMixin:
                     out.append(Violation("callback-while-held", site, "inside", dict(element=x, log=_short(log[:i + 1]))))
                 elif x in pending:
                     out.append(Violation("callback-while-held", site, "sink-pending", dict(element=x, log=_short(log[:i + 1]))))
+                elif x in self.emitter_holds(log[:i]):
+                    out.append(Violation("callback-while-held", site, "emitter", dict(element=x, log=_short(log[:i + 1]))))
             return out
         # ---- C05 ----
         zero = getattr(self, "_zero", None)
@@ -183,7 +205,7 @@ class RefMixin:
             for x, rc in self.rcs.items():
                 if x in failed:
                     continue
-                want = held.get(x, 0)
+                want = held.get(x, 0) + (1 if x in self.emitter_holds(log) else 0)
                 if rc.count != want:
                     det = "leak" if rc.count > want else "under-count"
                     if site == "latest" and det == "leak":
@@ -193,7 +215,7 @@ class RefMixin:
                     out.append(Violation("count!=holders", site, det, dict(element=x, count=rc.count, holders=want, log=_short(log))))
             if final:
                 for x, rc in self.rcs.items():
-                    if x in failed or held.get(x, 0):
+                    if x in failed or held.get(x, 0) or x in self.emitter_holds(log):
                         continue
                     ncb = sum(1 for e in log if e[0] == "cb" and e[1] == x)
                     if ncb == 0:
@@ -211,7 +233,7 @@ def delivered_set(log):
 
 
 def _short(log):
-    return [tuple(e[:1]) + tuple(e[1:2]) + tuple(e[3:5]) for e in log if e[0] in ("emit", "in", "out", "rc0", "cb", "gate-failed", "f-in", "f-out", "flush")][-14:]
+    return [tuple(e[:1]) + tuple(e[1:2]) + tuple(e[3:5]) for e in log if e[0] in ("emit", "in", "out", "rc0", "cb", "gate-failed", "f-in", "f-out", "flush", "letgo")][-14:]
 
 
 class _GateFailures:
@@ -316,7 +338,20 @@ class RefChain(_GateFailures, RefMixin, PipeScenario):
         items = p.get("items") or list(range(1, p["n"] + 1))
         self.add_producer("p", self.src, items, mode=p["mode"], metadata=self.md)
 
+    def attach_sink(self, node):
+        super().attach_sink(node)
+        if "fan2" in self.params.get("opts", ()):
+            self.sink2 = node.sink(self.make_sink_fn("future", "S2"))
+
+    def _letgo(self, x):
+        self.log.append(("letgo", x, self.loop.time()))
+        self.rcs[x].release()
+
     def extra_events(self):
+        if "init1" in self.params.get("opts", ()):
+            held = sorted(self.emitter_holds(self.log))
+            if held:
+                return [("letgo(%r)" % held[0], lambda x=held[0]: self._letgo(x))]
         if self.params["site"] == "collect" and len(self.log) and any(e[0] == "emit" for e in self.log) \
                 and sum(1 for e in self.log if e[0] == "flush") < 2:
             return [("flush", self._flush)]
@@ -325,6 +360,13 @@ class RefChain(_GateFailures, RefMixin, PipeScenario):
     def _flush(self):
         self.log.append(("flush", "collect", self.loop.time(), None))
         self.collect.flush()
+
+    def closing_events(self):
+        ev = super().closing_events()
+        if ev is None and "init1" in self.params.get("opts", ()):
+            xs = self.extra_events()
+            return xs[0] if xs else None
+        return ev
 
     def check_step(self):
         return self.ref_check()
@@ -372,9 +414,10 @@ def factory(key):
     if key[1] == "chain":
         _, _, node, kind, mode, n, fail = key[:7]
         items = key[7] if len(key) > 7 and isinstance(key[7], tuple) else None
-        fan = 1 if (len(key) > 7 and key[7] == "fan") else 0
+        opts = tuple(key[7].split("+")) if (len(key) > 7 and isinstance(key[7], str)) else ()
+        fan = 1 if "fan" in opts else 0
         return lambda: RefChain(prop=prop, nodes=tuple(node.split(",")), kind=kind, mode=mode, n=n, fail=fail,
-                                items=list(items) if items else None, fan=fan)
+                                items=list(items) if items else None, fan=fan, opts=opts)
     _, _, join, kind, mode, n, fail = key
     return lambda: RefJoin(prop=prop, join=join, left="", right="", kind=kind, mode=mode, n=n, fail=fail)
 
@@ -418,6 +461,22 @@ def plan(ctx, prop="C04"):
     # fan-out at the entry point: synchronous branch first, then the holding node / slow consumer
     for node in ("direct", "map", "buffer:1", "delay:1", "partition:2", "latest", "sliding_window:2", "map_async:1"):
         jobs.append(((prop, "chain", node, "future", "await", 2, 1 if prop == "C04" else 0, "fan"), 1 if node not in ("delay:1",) else 0))
+    # metadata made of two dictionaries, only one of which carries a counter (both orders)
+    for node in ("direct", "map", "buffer:1", "sliding_window:2", "map_async:1", "partition:2"):
+        for o in ("mix1", "mix2"):
+            jobs.append(((prop, "chain", node, "future", "await", 2, 0, o), 1))
+    # two asynchronous consumers behind the node: the emit awaitable / the release covers both
+    for node in ("direct", "map", "buffer:1", "map_async:1", "sliding_window:2"):
+        jobs.append(((prop, "chain", node, "future", "await", 2, 0, "fan2"), 1))
+    # consumers that return native coroutine objects / nothing at all (synchronous consumer behind a forwarding node)
+    for node in ("direct", "map", "buffer:1", "map_async:1"):
+        if not T:
+            jobs.append(((prop, "chain", node, "native", "await", 2, 0), 1))
+        if node != "direct":
+            jobs.append(((prop, "chain", node, "sync", "await", 2, 0), 1))
+    # counters created with initial=1: the caller's own hold, let go at any moment
+    for node in ("direct", "map", "buffer:1", "sliding_window:2"):
+        jobs.append(((prop, "chain", node, "future", "await", 2, 0, "init1"), 1))
     return jobs
 
 
